@@ -289,7 +289,14 @@ class Interp:
             if cond.is_const():
                 return cond.const_value() != 0
             return self.decide(Cond("!=", (cond, 0)))
-        if isinstance(cond, (Rec, ConstMatch)):
+        if isinstance(cond, Rec):
+            # truth of an instance: __bool__, else __len__, else true
+            if self.find_method(cond.cls, "__bool__"):
+                return self.decide(self.rec_op(cond, "__bool__", []))
+            if self.find_method(cond.cls, "__len__"):
+                return self.decide(self.rec_op(cond, "__len__", []))
+            return True
+        if isinstance(cond, ConstMatch):
             return True
         if isinstance(cond, Ext):
             return cond.sym_truth(self)
@@ -1164,9 +1171,7 @@ class Interp:
                 if isinstance(v, RF):
                     return Cond("==", (v, 0))
                 return v
-            if isinstance(v, Rec):
-                return False
-            if isinstance(v, (Ext, SymStr)):
+            if isinstance(v, (Rec, Ext, SymStr)):
                 return not self.decide(v)
             return not v
         if isinstance(n.op, ast.USub):
@@ -1900,8 +1905,12 @@ class Interp:
                 return v.sym_len()
             if isinstance(v, Rec) and self.is_namedtuple(v.cls):
                 return len(v.f)
+            if isinstance(v, Rec):
+                return self.rec_op(v, "__len__", [])
             if isinstance(v, Unknown):
                 return v
+            if isinstance(v, LazyGen):
+                raise PyRaise("TypeError", node, "object of type 'generator' has no len()")
             return len(v)
         if name == "range":
             return range(*[_idx(x) for x in a])
@@ -2001,7 +2010,22 @@ class Interp:
         if name == "itertools.islice":
             import itertools as _it
             return LazyGen(_it.islice(self.iter_lazy(a[0]), *[None if v is None else _idx(v) for v in a[1:]]))
+        if name == "iter" and len(a) == 2:
+            fn_, sentinel = a
+            def _until(fn_=fn_, sentinel=sentinel):
+                n_ = 0
+                while True:
+                    v_ = self.call(fn_, [], {})
+                    if self.equal(v_, sentinel) is True:
+                        return
+                    n_ += 1
+                    if n_ > 10000:
+                        raise Undecided("while loop bound exceeded")
+                    yield v_
+            return LazyGen(_until())
         if name == "iter":
+            if isinstance(a[0], LazyGen):
+                return a[0]
             return a[0] if isinstance(a[0], IterObj) else IterObj(self.iterate(a[0]))
         if name == "next":
             src = a[0]
